@@ -123,13 +123,13 @@ func IdentShape(r *engine.RNG, kind string) *engine.Shape {
 }
 
 var optKeys = []string{"a", "b", "caps", "host", "port", "i", "s", "v", "netId", "router.version", "key", "x", "introducer0", "mtu", "",
-	"A", "Z", "aa", "a.b", "a=b", "k;", "\u00e9", "\u00e9a", "host ", "Host", strings.Repeat("q", 255)}
+	"A", "Z", "aa", "a.b", "a=b", "k;", "\u00e9", "\u00e9a", "host ", "Host", strings.Repeat("q", 255), "a-b", "a_b", "aB", "ab", "\U0001F511", "\uFFFDz"}
 
 // optVals include payload that looks like structure: runs of zero bytes (an
 // empty mapping, a NULL certificate, a zero count), a key certificate, a
 // complete pair. A parser that re-synchronises or looks ahead meets something
 // parseable inside a value.
-var optVals = []string{"", "1", "f", "XfR", "127.0.0.1", "::1", "12345", "0.9.67", "2", strings.Repeat("k", 44), strings.Repeat("v", 200), "=;", "a=b;",
+var optVals = []string{"", "1", "f", "XfR", "127.0.0.1", "::1", "12345", "0.9.67", "2", strings.Repeat("k", 44), strings.Repeat("v", 200), strings.Repeat("w", 255), strings.Repeat("w", 254), "=;", "a=b;",
 	strings.Repeat("\x00", 200), strings.Repeat("\x00", 97), "\x00\x00", "\x05\x00\x04\x00\x07\x00\x04", "\x01k=\x01v;", strings.Repeat("\x00\x06\x01k=\x01v;", 20)}
 
 // Options draws 0..max unique-key pairs (sometimes unsorted, sometimes with
